@@ -456,8 +456,8 @@ func realRun(bin string, sc *Scenario, meta *c19Meta) (int, string, error) {
 			return 0, stderr.String(), err
 		}
 		return code, stderr.String(), nil
-	case <-time.After(60 * time.Second):
+	case <-time.After(15 * time.Second):
 		_ = cmd.Process.Kill()
-		return 0, stderr.String(), fmt.Errorf("the real binary did not terminate within 60 s (args %v)", args)
+		return 0, stderr.String(), fmt.Errorf("the real binary did not terminate within 15 s (args %v)", args)
 	}
 }
